@@ -4,10 +4,9 @@ import reghist as rh
 from reghist import D, DA, DAA, DB, DFB, DFA, C, CA, CAA, CB, CFB, CFA, S, SA, SFA, M, MA, MAA, MFA, R, RA, RFA, RFB
 
 PARTIAL = [
-    "the reader part (set_io_objects, classes of read_pil results) is not covered by this check",
-    "frame theorem: an inherited class attribute ID is read through the base classes, so the automatic names of a subclass "
-    "that never created an automatically named object follow the base class counter (Python attribute look-up; modelled "
-    "and observed, stated in the theorem as 'own ID unchanged')",
+    'the reader part (set_io_objects, classes of read_pil results) is not covered by this check',
+    "an inherited class attribute ID is read through the base classes, so the automatic names of a subclass that never created an automatically named object follow the base class counter (Python attribute look-up; modelled and observed); C15_frame states that the class's OWN ID attribute is untouched",
+    'a user constructor failing after super().__init__ with an automatic name has already advanced the class counter (self.__class__.ID += 1 ran): names and canonical forms stay free, the counter does not move back (modelled, observed)',
 ]
 
 
@@ -50,6 +49,8 @@ RULE = ("every history of depth 3 over equal requests (one name, two lengths, na
 
 
 def run(ctx):
+    from common import replay_recorded_findings
+    replay_recorded_findings(ctx, ["c15_mixed_session"])
     rh.run_check(ctx, "C15", batches, RULE, partial=PARTIAL)
 
 
